@@ -9,6 +9,7 @@ import (
 	"github.com/valyala/fastjson"
 
 	. "github.com/cube2222/octosql/execution"
+	"github.com/cube2222/octosql/helpers/simhook"
 	"github.com/cube2222/octosql/octosql"
 	"github.com/cube2222/octosql/physical"
 )
@@ -70,6 +71,7 @@ var parserWorkReceiveChannel = func() chan<- jobIn {
 
 					out.record = NewRecord(values, false, time.Time{})
 				}
+				simhook.YieldCtx(job.ctx, "json.worker.send", int64(job.lines[0]))
 				select {
 				case job.outChan <- outJobs:
 				case <-job.ctx.Done():
